@@ -380,6 +380,23 @@ def oracle(res_list, exc, output, out_kind, sample_name, gene_name, viol, probes
             viol.append({"clause": "stage raised but genotype() did not", "detail": {"stage": "estimate_minor"}})
         return
     mret, msc = mi["ret"], mi["ret_scores"]
+    # carry-over inside the minor stage: returned score = model objective + (major score - best major score)
+    raw = {}
+    for c in calls:
+        if c["stage"] == "solve_minor_model" and c["ret"] is not None:
+            for obj, sc in zip(c["ret"], c["ret_scores"]):
+                raw[id(obj)] = sc
+    passed_scores = [m.score for m in mi["args"][0][2]]
+    if passed_scores:
+        base = min(passed_scores)
+        for s_, sc in zip(mret, msc):
+            if id(s_) in raw:
+                want_sc = raw[id(s_)] + (s_.major_solution.score - base)
+                if abs(want_sc - sc) > 1e-6:
+                    viol.append({"clause": "refined candidate's score does not carry over the major-solution score difference",
+                                 "detail": {"returned": sc, "model_objective": raw[id(s_)],
+                                            "major_score": s_.major_solution.score, "best_major_score": base}})
+                    break
     if not mret:
         return expect_error("estimate_minor")
     if aldy_exc:
@@ -498,7 +515,7 @@ def run_segment(seg):
     oracle(res_list, rec["exc"], rec["output"], seg["out"], "s0", seg["gene"], viol, probes)
     stages = []
     for c in SIM.stage_calls:
-        if c["ret"] is None:
+        if c["ret"] is None or c["stage"] == "solve_minor_model":
             continue
         if c["stage"] == "estimate_cn":
             key, ret = "cn", [canon.cn_solution(x) for x in c["ret"]]
